@@ -509,6 +509,18 @@ def writers(cx):
                 continue
             if any(l[0] == "in" and is_f(l[1], LT) and l[2] == frozenset(["Some"]) for l in gl) and any(s.fn is c.fn for s, _ in sets):
                 kinds.add("retarget")
+                # only a request that could itself start a transfer (a tracked non-learner, or the leader itself) may
+                # cancel the pending one: a request naming a learner or an unknown node is ignored entirely
+                for s_, x in sets:
+                    if s_.fn is not c.fn:
+                        continue
+                    def known(l, x=x):
+                        return l[0] == "in" and l[2] == frozenset(["Some"]) and match(call(alt("~ProgressTracker::get", "~ProgressTracker::get_mut"), ANY, x), l[1]) is not None
+                    def not_learner(l, x=x):
+                        return l[0] == "is" and l[2] is False and l[1][0] == "call" and l[1][1].endswith("::contains") and contains(fld("Configuration.learners"), l[1]) and x in l[1][2]
+                    require_all(cx, c, cx.site_key(c, "abort:retarget"), "a pending transfer is cancelled by a new request only if that request names a tracked node that is not a learner",
+                                [("prs.get(x).is_some()", known), ("x is not a learner", not_learner)], kill=False)
+                    break
                 continue
             cx.bad(cx.site_key(c, "abort"), "unrecognised abort of a leadership transfer", c)
         for k in ("reset", "timeout", "removed"):
